@@ -16,6 +16,7 @@ from .weave import Weaver
 VERIF = os.path.dirname(os.path.dirname(os.path.abspath(__file__)))
 REPO = os.environ.get('VX_REPO', '/repo')
 WORK = os.environ.get('VX_WORK', os.path.join(VERIF, 'work'))
+EVID = os.environ.get('VX_EVIDENCE', os.path.join(VERIF, 'evidence'))  # seeded runs write elsewhere
 TRUST_RX = re.compile(r'external_body|assume_specification|admit\s*\(|assume\s*\(|external_type_specification|external_fn_specification|\baxiom\b|#\[verifier::external\]')
 
 
@@ -281,11 +282,11 @@ class PropertyRun:
 
     def finish(self):
         pid = self.pid
-        os.makedirs(os.path.join(VERIF, 'evidence', 'replay'), exist_ok=True)
+        os.makedirs(os.path.join(EVID, 'replay'), exist_ok=True)
         lines = []
         real_violations = []
         for v in self.violations:
-            rp = os.path.join(VERIF, 'evidence', 'replay', f'{v["obligation"].replace("/", "_")}.json')
+            rp = os.path.join(EVID, 'replay', f'{v["obligation"].replace("/", "_")}.json')
             pb = v.get('playback')
             if v.get('unit') in self.bad_units:
                 continue
@@ -336,7 +337,7 @@ class PropertyRun:
             'wall_s': round(wall, 2),
             'violations': len(real_violations) if status == 1 else 0,
         }
-        json.dump(ev, open(os.path.join(VERIF, 'evidence', f'{pid}.json'), 'w'), indent=1)
+        json.dump(ev, open(os.path.join(EVID, f'{pid}.json'), 'w'), indent=1)
         for kid, summ in dict(self.known_hits).items():
             print(f'KNOWN-FINDING: property={pid} {kid}: {summ}')
         for n in self.notes:
